@@ -158,6 +158,18 @@ func runDynamic(id string, args []string) {
 	env := pipe.Setup()
 	corpus := env.BuildCorpus(tier)
 	fams := prop.families(rc.Thorough())
+	explorer := "state-caching search over all interleavings (standard universe); dynamic partial-order reduction for the large shapes (block L)"
+	if rc.Thorough() && os.Getenv("VERIF_POR") == "" {
+		// thorough: the universe is ten times larger and every fault subset is tried; all of it is explored per
+		// Mazurkiewicz trace (DPOR + sleep sets, cross-validated against the full search on the quick universe)
+		os.Setenv("VERIF_POR", "on")
+	}
+	switch os.Getenv("VERIF_POR") {
+	case "on":
+		explorer = "dynamic partial-order reduction with sleep sets (one interleaving per Mazurkiewicz trace, oracles on happens-before) for every case"
+	case "both":
+		explorer = "state-caching search over all interleavings, each case also explored with dynamic partial-order reduction and the two compared"
+	}
 	results, err := corpus.Explore(fams, rc.Thorough(), 300000)
 	if err != nil {
 		fmt.Println("EXPLORER-FAILED:", err)
@@ -379,6 +391,25 @@ func runDynamic(id string, args []string) {
 	rc.Coverage["evaluations"] = execs
 	rc.Coverage["distinct_nontrivial"] = nontrivial
 	rc.Coverage["rule"] = "declaration universe of DESIGN §2.1 (tier " + tier + "), every member generated by the real CLI, instrumented and explored over ALL interleavings per scenario family [" + fams + "] with state-key pruning; a (declaration, scenario) pair is non-trivial when some reachable state has two different threads enabled. Oracle: " + prop.text
+	rc.Coverage["explorer"] = explorer
+	porRuns, porDiffs := 0, 0
+	for _, r := range results {
+		if r.POR {
+			porRuns++
+		}
+		if r.PORDiff != "" {
+			porDiffs++
+			rc.Notes = append(rc.Notes, "the two explorers disagree on "+r.Pkg+" ["+r.Scenario+"]: "+r.PORDiff)
+		}
+	}
+	rc.Coverage["scenario_runs_explored_with_partial_order_reduction"] = porRuns
+	if os.Getenv("VERIF_POR") == "both" {
+		rc.Coverage["explorer_disagreements"] = porDiffs
+		if porDiffs > 0 && rc.Unsuppressed() == 0 {
+			fmt.Printf("EXPLORER-DISAGREEMENT: the state-caching and the partial-order-reducing explorer differ on %d scenario runs (machinery defect, no verdict)\n", porDiffs)
+			os.Exit(2)
+		}
+	}
 	rc.Coverage["exhaustive"] = capped == 0
 	rc.Coverage["declarations_in_universe"] = len(corpus.Items)
 	rc.Coverage["declarations_explored"] = cases
